@@ -42,6 +42,9 @@ CHECKS = {
  "C07": ("model_checking", "E1 over the identity generator x every API path x every single-byte variant (all positions), against SHA-256 / independent base32+base64 codecs",
          "Every identity within the deviation bound through 8 API paths; for each, every byte position is modified (two values) and hash/address/equality re-evaluated. Exhaustive over positions and paths for the enumerated identities.",
          "SHA-256 from the standard library; base codecs from refmodel."),
+ "C08": ("model_checking", "E1 over accepted encodings x overwrite histories on live parsed values (whole buffer, each region, each copy-documented accessor result), judged by a deep reflect+unsafe snapshot of the value graph",
+         "Every accepted encoding within the deviation bound of every listed structure is parsed from a private buffer; after each overwrite history the deep snapshot (all reachable bytes, unexported fields) and the serialisation must be unchanged. The list of copy-documented accessors is rebuilt from /repo's doc comments at every run.",
+         "Mappings of LeaseSet2/MetaLeaseSet are outside the property and skipped by type."),
  "C09": ("model_checking", "explicit enumeration of (API path x type pair): 16 paths x full product of known+boundary codes, plus all 65,536 codes per axis on the reader paths; oracle = independent prohibited-type table",
          "All paths that can yield a Destination/RouterIdentity are driven with every known and boundary type pair; each axis is swept over the whole 16-bit space for the reader paths. A path that starts skipping the policy is reported with the path name.",
          "The path list is hand-maintained (registry scan reports new byte-consuming entry points in C04's evidence)."),
